@@ -117,6 +117,30 @@ def client_fns():
   return Handler(init, 'client_init'), Handler(step, 'client_step'), Handler(final, 'client_final')
 
 
+def v_backend_stateless(p):
+  """The function a backend returns is a function of the arguments of each call: its closures (`run`, `run_block`, ...) keep
+  no state between calls - every mutation site in a backend's __call__ (donation sites are the jit.own / pstep.donate
+  obligations) is on an object created by the closure that mutates it.  A replicated copy of the last shared input kept in the
+  enclosing scope would serve stale values when the caller updates its container in place."""
+  import ast
+  from .. import own
+  from ..extract import parse
+  _, tree = parse(FE)
+  n_cls = 0
+  for cls_ in [n for n in tree.body if isinstance(n, ast.ClassDef) and n.name.startswith('ForEachClient') and n.name.endswith('Backend')]:
+    for fn in [f for f in cls_.body if isinstance(f, ast.FunctionDef) and f.name == '__call__']:
+      if all(isinstance(b, (ast.Expr, ast.Pass, ast.Raise)) for b in fn.body):
+        continue
+      n_cls += 1
+      sites, _ = own.analyze_function(fn, f'{cls_.name}.__call__')
+      bad = [f'{FE}:{s_.lineno} {s_.fn}: {s_.what.strip()}' for s_ in sites if not s_.ok and not s_.what.startswith('donate[')]
+      rebinds = [f'{FE}:{n.lineno} nonlocal {", ".join(n.names)}' for n in ast.walk(fn) if isinstance(n, (ast.Nonlocal, ast.Global))]
+      p.oblige(f'backend.stateless:{cls_.name}', [], z3.BoolVal(not bad and not rebinds), kind='frame', fn=f'{cls_.name}.__call__',
+               detail=f'{cls_.name}: the returned function keeps no state between calls ({bad + rebinds})')
+  p.oblige('backend.stateless.sites', [], z3.BoolVal(n_cls >= 3), kind='post', fn='for_each_client.py',
+           detail=f'{n_cls} backend implementations analysed (vacuity guard)')
+
+
 def base_globals():
   jnp = Module('jnp', {'copy': Handler(lambda c, x: TV(x.term, True), 'jnp.copy')})
   jax = Module('jax', {'jit': Handler(c_jit, 'jax.jit'),
@@ -685,6 +709,7 @@ def build(p):
   p.native('set_for_each_client_backend', D, 'context')
   p.native('ctx.', D, 'context')
   v_context(p)
+  v_backend_stateless(p)
   v_sequential(p, 'ForEachClientJitBackend')
   v_sequential(p, 'ForEachClientDebugBackend')
   v_sequential(p, 'ForEachClientJitBackend', with_wrapper=True)
